@@ -76,7 +76,7 @@ def tree_for(N, rng, block, need_dim=0):
 
 def make_cfg(kind, rng):
     cfg = {"kind": kind, "block": rng.choice([4, 4, 6]), "beta2": rng.choice([1.0, 0.999]),
-           "eps": rng.choice([1e-3, 1e-3, 1e-2, 1e-6]), "start": rng.choice([1, 1, 2]), "pi": rng.choice([1, 1, 2]),
+           "eps": rng.choice([1e-3, 1e-3, 1e-3, 1e-2, 1e-2, 1e-6]), "start": rng.choice([1, 1, 2]), "pi": rng.choice([1, 1, 2]),
            "eigh": kind in ("eigh", "quant_eigh"), "quant": kind.startswith("quant"), "rank": 0, "reuse": False,
            "fd": False, "graft": rng.choice(["SGD", "RMSPROP_NORMALIZED", "ADAGRAD"])}
     if kind in ("comp", "comp_reuse", "quant_comp"):
@@ -111,7 +111,8 @@ def gen_tasks(tier, seed):
     # ---------------- executed pmap runs
     if quick:
         n0 = 1 + (5 * seed) % 16
-        plan = [(n0 + i, list(range(2, 9))) for i in range(8)]          # 8 consecutive N: all residues mod every D <= 8
+        # 8 consecutive N; N = n0 + i runs on the D > i: for every D the D consecutive N = n0 .. n0+D-1 cover all residues
+        plan = [(n0 + i, [D for D in range(2, 9) if i < D]) for i in range(8)]
         extra = rng.sample([n for n in range(1, 31) if not (n0 <= n < n0 + 8)], 4)
         if n0 != 1:
             extra[0] = 1                                                # N < D for every D >= 2
@@ -241,13 +242,17 @@ def _kappa(stats, eps):
 
 def _tol(cat, kappa):
     """TOL(1e-6 * conditioning): leaves that do not pass through an inverse root (statistics, diagonal statistics,
-    counters) use 1e-6 flat; root-dependent leaves 1e-6 * max(1, kappa/10)."""
+    counters) use 1e-6 flat; root-dependent leaves 1e-6 * max(1, kappa) (observed rounding noise of two differently
+    batched programs: about 5e-8 * kappa)."""
     if cat in ROOT_FREE:
         return TOL
-    return TOL * max(1.0, kappa / 10.0)
+    return TOL * max(1.0, kappa)
 
 
-def _cmp_leaf(cat, a, b, kappa):
+_FRAC = [0.0]    # largest observed (difference / tolerance) in this worker task: the margin of the decision
+
+
+def _cmp_leaf(cat, a, b, kappa, slack=1.0):
     """a: reference, b: candidate. returns (status, detail) with status in
     bitwise | tol | quant-boundary | weak | FAIL."""
     import numpy as np
@@ -267,14 +272,19 @@ def _cmp_leaf(cat, a, b, kappa):
     b64 = np.where(fb, b, 0).astype(np.float64)
     if not fa.all() and not (np.isnan(a) == np.isnan(b)).all():
         return "FAIL", "nan/inf pattern differs"
-    if cat in ("metrics.inverse_pth_root_errors", "metrics.final_error_ratio"):
+    if cat == "metrics.final_error_ratio":
+        # ratio of two successive Newton errors at rounding level: noise as soon as one bit differs; only recorded
+        return "noise", 0.0
+    if cat == "metrics.inverse_pth_root_errors":
         d = float(np.max(np.abs(a64 - b64))) if a.size else 0.0
-        lim = 1e-4 * max(1.0, kappa / 10.0)
+        lim = 1e-4 * slack * max(1.0, kappa / 10.0)
+        _FRAC[0] = max(_FRAC[0], d / lim)
         return ("tol", d) if d <= lim else ("FAIL", f"abs diff {d:.3e} > {lim:.1e}")
     na = float(np.linalg.norm(a64))
     d = float(np.linalg.norm(a64 - b64))
     rel = d / na if na > 0 else d
-    tol = _tol(cat, kappa)
+    tol = _tol(cat, kappa) * slack
+    _FRAC[0] = max(_FRAC[0], rel / tol)
     if rel <= tol:
         return ("weak" if tol > 1e-2 else "tol"), rel
     return "FAIL", f"rel diff {rel:.3e} > tol {tol:.1e} (kappa {kappa:.2e})"
@@ -374,7 +384,7 @@ def _jit_record(opt, params, grads):
     return rec
 
 
-def _compare_run(ref, cand, D, eps, thr, lead_ref, lead_cand, tally, skip_paths=None):
+def _compare_run(ref, cand, D, eps, thr, lead_ref, lead_cand, tally, skip_paths=None, slack=1.0):
     """ref/cand: records over steps. lead_*: whether the arrays carry a leading device axis.
     Returns (fails, flip_step)."""
     fails = []
@@ -397,7 +407,7 @@ def _compare_run(ref, cand, D, eps, thr, lead_ref, lead_cand, tally, skip_paths=
                 if skip_paths and skip_paths(p):
                     continue
                 cat = _cat(p)
-                status, det = _cmp_leaf(cat, a, b, kappa)
+                status, det = _cmp_leaf(cat, a, b, kappa, slack)
                 tally["leaves"] = tally.get("leaves", 0) + 1
                 tally[status] = tally.get(status, 0) + 1
                 if status in ("tol", "weak"):
@@ -440,13 +450,15 @@ def _run_pmap_task(task):
     for D in Ds:
         run = {"D": D}
         tally = {"_kappa": {}}
+        _FRAC[0] = 0.0
         try:
             if D == 0:
                 rec = _jit_record(_build(cfg, "replicated"), params, grads)
                 # the replicated program has no device axis; its metrics pytree is identical
                 tally["_kappa"] = {t: _kappa(base[t]["stats"], cfg["eps"]) for t in range(len(base))}
+                # a differently compiled whole program (no collectives): tolerances x10
                 fails, flip = _compare_run([{"flat": b["flat"], "stats": b["stats"]} for b in base], rec, 1, cfg["eps"], thr,
-                                           True, False, tally)
+                                           True, False, tally, slack=10.0)
             else:
                 rec = _pmap_record(_build(cfg, "pmap"), params, grads, D, names)
                 fails, flip = _compare_run(base, rec, D, cfg["eps"], thr, True, True, tally)
@@ -462,6 +474,8 @@ def _run_pmap_task(task):
             out["runs"].append(run)
             continue
         tally.pop("_kappa", None)
+        tally["max_frac_of_tol"] = _FRAC[0]
+        _FRAC[0] = 0.0
         run.update(fails=fails, flip=flip, tally=tally)
         out["runs"].append(run)
     return out
@@ -535,6 +549,7 @@ def _run_sharded_task(task):
     for npjit, meshD in task["runs"]:
         run = {"npjit": npjit, "mesh": meshD}
         tally = {"_kappa": {}}
+        _FRAC[0] = 0.0
         try:
             rec, info = _sharded_record(cfg, params, grads, names, npjit, meshD, N)
             fails, flip = _compare_run(base, rec, 1, cfg["eps"], 0.1, False, False, tally)
@@ -545,6 +560,8 @@ def _run_sharded_task(task):
             out["runs"].append(run)
             continue
         tally.pop("_kappa", None)
+        tally["max_frac_of_tol"] = _FRAC[0]
+        _FRAC[0] = 0.0
         run.update(fails=fails, flip=flip, tally=tally,
                    info={k: info[k] for k in ("init_count", "declared_count", "exponents", "index", "sizes", "init_filler_identity")},
                    steps=[{k: r[k] for k in ("count", "exponents", "filler_identity", "filler_finite")} for r in rec])
@@ -652,7 +669,9 @@ def _unit_case(c):
 def worker(task):
     import io
     import contextlib
+    import time
     import jax
+    t0 = time.time()
     jax.config.update("jax_traceback_filtering", "off")
     buf = io.StringIO()
     with contextlib.redirect_stdout(buf):
@@ -667,6 +686,8 @@ def worker(task):
         else:
             raise ValueError(task["kind"])
     jax.clear_caches()
+    if res:
+        res[0]["secs"] = round(time.time() - t0, 1)
     return res
 
 
@@ -728,7 +749,7 @@ def _exact(ctx, op, case, impl, model, note=""):
 
 def _merge_tally(ctx, prefix, tally):
     for k, v in tally.items():
-        if k in ("max_rel", "kappa_max"):
+        if k in ("max_rel", "kappa_max", "max_frac_of_tol"):
             key = prefix + "." + k
             ctx.cov["distribution"][key] = max(ctx.cov["distribution"].get(key, 0.0), v)
         else:
@@ -958,6 +979,9 @@ def execute(ctx, tasks):
     replies = ctx.driver(reqs) if reqs else []
     for o, (a, b) in zip(obs, spans):
         compare(ctx, o, replies[a:b])
+    secs = sorted(((o["secs"], o["kind"], o.get("case", {}).get("N")) for o in obs if "secs" in o), reverse=True)
+    ctx.cov["slowest_tasks_s"] = [list(x) for x in secs[:5]]
+    ctx.cov["worker_seconds_total"] = round(sum(x[0] for x in secs), 1)
     return obs
 
 
@@ -996,7 +1020,7 @@ def run(ctx):
         "A non-trivial case is a distinct (mode, kind, N, D[, mesh]) with D >= 2 that ran and was compared on every device.")
     ctx.assumptions += [
         "decision TOL: relative 1e-6 (Frobenius, per leaf) for leaves that do not pass through an inverse root (statistics, diagonal "
-        "statistics, counters); 1e-6 * max(1, kappa/10) for root-dependent leaves, kappa = worst condition number of the ridge-regularised "
+        "statistics, counters); 1e-6 * max(1, kappa) for root-dependent leaves, kappa = worst condition number of the ridge-regularised "
         "statistics of that step (TOL(eps*kappa) of DESIGN 2.3); error metrics absolute 1e-4 * max(1, kappa/10); int16 payloads of quantized "
         "leaves may differ by one unit (rounding boundary, counted); bitwise equality is recorded per leaf category in the distribution",
         "comparisons whose tolerance exceeds 1e-2 are counted as `weak`",
